@@ -635,8 +635,45 @@ def solve(sol, glob=None):
         r = s2.check()
         if glob is not None:
             glob.fallbacks = getattr(glob, "fallbacks", 0) + 1
+        if XCHECK:
+            cross_check(s2, r, glob)
         return r, (s2.model() if r == z3.sat else None)
+    if XCHECK:
+        cross_check(sol, r, glob)
     return r, (sol.model() if r == z3.sat else None)
+
+
+XCHECK = int(os.environ.get("VERIF_XCHECK", 0))      # 1 of N queries is re-decided by cvc5 (second solver on the same SMT-LIB text)
+_XN = [0]
+
+
+def cross_check(sol, r, glob):
+    _XN[0] += 1
+    if _XN[0] % XCHECK:
+        return
+    import subprocess, tempfile
+    text = "(set-logic ALL)\n" + sol.to_smt2()
+    try:
+        with tempfile.NamedTemporaryFile("w", suffix=".smt2", dir=os.path.join(os.environ.get("VERIF_WORK", "/verif/.work")), delete=False) as f:
+            f.write(text); path = f.name
+        out = subprocess.run(["cvc5", "--lang", "smt2", "--tlimit=20000", path], stdout=subprocess.PIPE, stderr=subprocess.PIPE, timeout=40).stdout.decode(errors="replace")
+    except Exception as e:
+        out = "error " + repr(e)
+    finally:
+        try:
+            os.unlink(path)
+        except Exception:
+            pass
+    verdict = out.strip().split("\n")[-1].strip() if out.strip() else "none"
+    st = glob.__dict__.setdefault("xcheck", {"agree": 0, "unknown": 0, "disagree": []}) if glob is not None else None
+    if st is None:
+        return
+    if "(error" in out or verdict not in ("sat", "unsat"):
+        st["unknown"] += 1
+    elif verdict == str(r):
+        st["agree"] += 1
+    else:
+        st["disagree"].append((str(r), verdict, text[:2000]))
 
 
 class Exec:
